@@ -398,7 +398,7 @@ def _cover_fn(w):
         if b.def_kind == 'Closure':
             continue
         tys = [b.locals[i]['ty']['s'] for i in range(1, b.arg_count + 1)]
-        if any(t.startswith('typst_syntax::LinkedNode') for t in tys) and any(t.endswith(('context::Mode', 'context::Context')) for t in tys) \
+        if any(re.match(r"^&?('\w+ )?typst_syntax::LinkedNode", t) for t in tys) and any(t.endswith(('context::Mode', 'context::Context')) for t in tys) \
                 and re.match(r'^std::option::Option<\(typst_syntax::Span, pretty::context::(Mode|Context)\)>', b.locals[0]['ty']['s']):
             bs.append(b)
     if len(bs) != 1:
@@ -433,7 +433,7 @@ def cover_transitions(w):
     import sites as sm
     from kindflow import Agg, Node
     b = _cover_fn(w)
-    node_p = [i for i in range(1, b.arg_count + 1) if b.locals[i]['ty']['s'].startswith('typst_syntax::LinkedNode')][0]
+    node_p = [i for i in range(1, b.arg_count + 1) if re.match(r"^&?('\w+ )?typst_syntax::LinkedNode", b.locals[i]['ty']['s'])][0]
     ctx_p = [i for i in range(1, b.arg_count + 1) if b.locals[i]['ty']['s'].endswith(('context::Mode', 'context::Context'))][0]
     full = b.locals[ctx_p]['ty']['s'].endswith('context::Context')
     # the search over the children may be written as a `for` loop or as an iterator consumer with a closure (find_map, any, ..): evaluate the
@@ -522,6 +522,8 @@ def entry_context_shape(w):
                     if o[0] == 'call':
                         ct = v.pv.call_term(o)
                         cp = resolved_path(ct) or callee_path(ct) or ''
+                        if re.search(r'FromResidual.*::from_residual$', callee_path(ct) or ''):
+                            continue          # the residual of a `?` in an expanded helper: it carries no Context
                         if cp.endswith('::with_mode'):
                             base = v.pv.peel(v.pv.origins_operand(ct['args'][0]))
                             if base and all(x[0] == 'call' and re.search(r'Default>?::default$|::default$', resolved_path(v.pv.call_term(x)) or callee_path(v.pv.call_term(x)) or '') for x in base):
@@ -1079,6 +1081,28 @@ def r6_item_body_indent(w):
         if 'Config.tab_spaces' not in amount:
             continue
         covered = set()
+        # (c) `doc.nest(levels * unit)` with `levels` = 1 for the item kinds and 0 otherwise (a count computed from the parent's kind)
+        for o in v.pv.peel(v.pv.origins_operand(t['args'][1])):
+            o = strip_casts(o)
+            if o[0] == 'binop' and o[1][2].startswith('Mul'):
+                rv = b.blocks[o[1][0]]['stmts'][o[1][1]]['rv']
+                for side in (rv['a'], rv['b']):
+                    if 'Config.tab_spaces' in v.describe_operand(side, 3) or side.get('o') not in ('copy', 'move') or side['p']['proj']:
+                        continue
+                    L = side['p']['l']
+                    for _ in range(4):
+                        ds = v.pv.defs.get(L, [])
+                        if len(ds) == 1 and ds[0][1] == 'rv' and ds[0][4]['r'] == 'use' and ds[0][4]['op'].get('o') in ('copy', 'move') and not ds[0][4]['op']['p']['proj']:
+                            L = ds[0][4]['op']['p']['l']
+                        else:
+                            break
+                    ds = v.pv.defs.get(L, [])
+                    if ds and all(d_[1] == 'rv' and d_[4]['r'] == 'use' and d_[4]['op'].get('o') == 'const' and d_[4]['op'].get('int') in (0, 1) for d_ in ds):
+                        for d_ in ds:
+                            if d_[4]['op'].get('int') == 1:
+                                for atom2, vals2, sw2 in v.guards_ext(d_[2]):
+                                    if vals2 and all(isinstance(x, str) for x in vals2) and set(vals2) <= set(kinds.values()) and isinstance(sw2, int) and _kind_of_parent(v, sw2):
+                                        covered |= set(vals2)
         for atom, vals, sw in v.guards_ext(bi):
             # (b) a match on the parent's kind itself: `match node.parent_kind() { Some(ListItem | ..) => .. }` / `match parent.kind() { .. }`
             if vals and all(isinstance(x, str) for x in vals) and set(vals) <= set(kinds.values()) and isinstance(sw, int) and _kind_of_parent(v, sw):
